@@ -17,10 +17,12 @@ CODES = [
 
 TEXT_PARTS = ["Done.", "ok", "OK", "NO", "BYE", "{5}", "{5+}", '"', "\\", " ", "(", ")", "é", "€", "line", "\r\n", "error:",
               "ACTIVE", "a", "Z", "0", "'", "/", "*"]
-NAME_PARTS = ["a", "b", "Z", "0", "_", "-", ".", " ", '"', "\\", "é", "€", "ACTIVE", "OK", "NO", "{3}", "{", "}", "(", ")", "script"]
+NAME_PARTS = ["a", "b", "Z", "0", "_", "-", ".", " ", '"', "\\", "é", "€", "ACTIVE", "OK", "NO", "{3}", "{", "}", "(", ")", "script",
+              "\t", "active", " ACTIVE", "😀", "'"]
 LINE_POOL = [b"OK", b'OK "done"', b'NO "x"', b"NO", b"BYE", b"{5}", b"{5+}", b'"a" ACTIVE', b"", b"keep;", b'require "fileinto";',
              "# résumé €".encode("utf-8"), b"x" * 300, b'"quoted"', b"{0}", b"OK (WARNINGS) \"w\"", b" leading space", b"\ttab",
-             b"if true {", b"}", b"ACTIVE", b".", b"text:"]
+             b"if true {", b"}", b"ACTIVE", b".", b"text:", b"a\x0cb", b"x\x0by", "a\u2028b".encode("utf-8"), "\ufeffbom".encode("utf-8"),
+             b"  ", b"trailing  ", b"\ttab\t", b"'", b'"', b"a\rb", "\x85nel".encode("utf-8"), b"a\x1cb", b"\\", b"{3}\"x\"", b"y" * 5000]
 
 
 def text_bytes(parts, min_size=0, max_size=5):
